@@ -1,15 +1,36 @@
 #!/usr/bin/env python3
 """Translator (tie T): regenerate coq/gen/Constants.v from /repo's *working tree*.
 
-Extracts declarative data (constants, tables, match-arm tables, byte sets), the offset arithmetic of iterator.rs / builder.rs,
-and -- table ANCHORS below -- "anchored expressions": integer expressions and boolean conditions of functions.rs, selector.rs
-and number.rs, translated Rust -> Gallina.  Control flow is hand-modelled and tied by the correspondence check; the model
-functions CALL the generated definitions, so when a source expression changes the model changes and the proofs over it
-(I32.v, OffsetTies.v, *Proofs.v, Props/*.v) are re-checked against what the code says now.
-Exits 2 (message on stderr) when a pattern is not found / found a different number of times / uses unsupported syntax:
-the tie is then reported broken by bin/check.  Never a guess.
+Extracts declarative data (constants, tables, match-arm tables, byte sets), the offset arithmetic of iterator.rs / builder.rs
+(table PLAIN_ROWS), and -- table ANCHORS below -- "anchored expressions": integer expressions and boolean conditions of
+functions.rs, selector.rs and number.rs, translated Rust -> Gallina.  Control flow is hand-modelled and tied by the
+correspondence check; the model functions CALL the generated definitions, so when a source expression changes the model changes
+and the proofs over it (I32.v, OffsetTies.v, *Proofs.v, Props/*.v) are re-checked against what the code says now.  Never a guess.
 
-Usage: translate_consts.py [--repo /repo] [--out file]   (prints to stdout when --out is absent)
+What makes it tolerant to behaviour-preserving rewrites of the source (and what does not):
+ 1. RESOLUTION (class Resolver).  An identifier of an anchored expression that is not an operand of the row is replaced by what
+    it denotes: a file-level / src/constants.rs `const`, or an immutable `let` of the enclosing fn that is the only binding of that
+    name, in scope at the anchor, and whose inputs are not assigned in between (recursively, depth-limited).  Operands with a
+    ROLE (`names` of the row) are recognised by their binding -- parameter position and type, the statement that binds them,
+    or the place they are used -- not by their spelling.  Unresolvable or ambiguous: the row fails.
+ 2. LOCATION.  Patterns may mention roles (`{J}` = whatever identifier plays role J in this fn) and sub-expressions that may have
+    been hoisted into a `let` (`hoist`); a row may list alternative locations / shapes of the same site (`alts`, `synth`);
+    the increment of a variable is found as `x += e` or as `x = <resolves to x + e>` (kind 'step').
+ 3. NORMAL FORM (tools/normform.py).  The translated expression is compared semantically with the committed baseline
+    (coq/gen/Constants.v at git HEAD of the framework; see find_baseline): integer expressions as polynomials, conditions in a
+    canonical form, NAME_SAFE as a set of range obligations.  Equal: the BASELINE TEXT is emitted verbatim, nothing in coq/
+    changes, nothing is rebuilt.  Different: the new text is emitted and the proofs decide.
+ 4. SCOPED ALARMS.  A row / table that still cannot be translated gets its baseline definition (everything keeps building, the
+    model is the last known-good one) and its name is recorded as STALE: file stale.json next to --out (keys `stale`: name ->
+    error, `affects`: name -> further generated names that rest on it, `equivalent`, `changed`), a line `stale: NAME ...` on
+    stdout, exit status 0.  bin/check reports the tie broken only for the properties that depend on a stale name.
+    Exit 2 (message on stderr) only when nothing can be produced: no baseline to fall back to, or src/constants.rs unreadable.
+ Not tolerated (the row goes stale, by design): a site that moves to another fn, a changed control-flow shape that no `alts`
+ entry describes, bindings through patterns / shadowing / `mut`, operators outside the expression language below.
+
+Usage: translate_consts.py [--repo /repo] [--out file] [--baseline file|none] [--report file]
+           (prints the text to stdout and the messages to stderr when --out is absent; `--baseline none` = strict mode:
+            no comparison, no fallback, exit 2 at the first failure -- the behaviour before normal forms and stale names)
        translate_consts.py [--repo /repo] --selftest      (mutation self-test of the anchored expressions, see MUTATIONS)
 
 ANCHORED EXPRESSIONS (rows of ANCHORS; the row format is documented above the table).  Generated name -> source site:
@@ -50,6 +71,8 @@ ANCHORED EXPRESSIONS (rows of ANCHORS; the row format is documented above the ta
 """
 import re, sys, argparse, os
 
+sys.path.insert(0, os.path.dirname(os.path.abspath(__file__)))
+
 
 class TranslateError(Exception):
     pass
@@ -89,7 +112,7 @@ def byte_lit(s):
     raise TranslateError('unrecognised byte literal: %r' % s)
 
 
-def consts(repo):
+def consts(repo, strict=True):
     src = strip_comments(open(os.path.join(repo, 'src/constants.rs')).read())
     out = {}
     for m in re.finditer(r'(?:pub(?:\(crate\))?\s+)?const\s+([A-Z0-9_]+)\s*:\s*(u8|u32|usize|char)\s*=\s*([^;]+);', src):
@@ -102,7 +125,7 @@ def consts(repo):
             'ARRAY_LEVEL', 'OBJECT_LEVEL', 'STRING_LEVEL', 'NUMBER_LEVEL', 'TRUE_LEVEL', 'FALSE_LEVEL',
             'INVALID_LEVEL']
     for n in need:
-        if n not in out:
+        if n not in out and strict:
             raise TranslateError('constant %s not found in src/constants.rs' % n)
     return out
 
@@ -277,21 +300,7 @@ def raw_string_delims(repo):
     return sorted(set(byte_lit(l) for l in lits))
 
 
-# ---------------------------------------------------------------- offset arithmetic of iterator.rs / builder.rs
-def arith(expr, names):
-    """a Rust integer expression over +, *, parentheses, literals and the given names -> the same expression in Coq (N)"""
-    e = expr.strip()
-    for rust, coq in names.items():
-        e = e.replace(rust, coq)
-    e = re.sub(r'\s+', ' ', e)
-    if not re.fullmatch(r'[0-9a-z_ +*()]+', e):
-        raise TranslateError('unsupported offset expression: %r' % expr)
-    for ident in re.findall(r'[a-z_]+', e):
-        if ident not in names.values():
-            raise TranslateError('unknown name %r in offset expression %r' % (ident, expr))
-    return e
-
-
+# ---------------------------------------------------------------- offset arithmetic of iterator.rs / builder.rs (rows, see ANCHORS)
 def block_after(src, header_re):
     m = re.search(header_re, src)
     if not m:
@@ -301,59 +310,6 @@ def block_after(src, header_re):
     if j < 0:
         raise TranslateError('unbalanced braces after %s' % header_re)
     return src[i:j]
-
-
-def field(body, name):
-    m = re.search(r'\b' + name + r'\s*:\s*([^,}]+)[,}]', body)
-    if not m:
-        raise TranslateError('field %s not found' % name)
-    return m.group(1)
-
-
-def step(body, name):
-    m = re.search(r'self\.' + name + r'\s*\+=\s*([0-9]+)\s*;', body)
-    if not m:
-        raise TranslateError('increment of %s not found' % name)
-    return int(m.group(1))
-
-
-def offsets(repo):
-    """initial offsets and entry-word strides of the three iterators; initial lengths / reserved sizes of the builders"""
-    it = strip_comments(open(os.path.join(repo, 'src/iterator.rs')).read())
-    L = {'length': 'length'}
-    out = []
-    a = fn_body(it, 'iterate_array')
-    out.append(('ITER_ARR_JOFF', 'length', arith(field(a, 'jentry_offset'), L)))
-    out.append(('ITER_ARR_VOFF', 'length', arith(field(a, 'val_offset'), L)))
-    k = fn_body(it, 'iteate_object_keys')
-    out.append(('ITER_KEYS_JOFF', 'length', arith(field(k, 'jentry_offset'), L)))
-    out.append(('ITER_KEYS_KOFF', 'length', arith(field(k, 'key_offset'), L)))
-    e = fn_body(it, 'iterate_object_entries')
-    out.append(('ITER_ENT_JOFF', 'length', arith(field(e, 'jentry_offset'), L)))
-    out.append(('ITER_ENT_KOFF', 'length', arith(field(e, 'key_offset'), L)))
-    out.append(('ITER_ENT_VOFF', 'length', arith(field(e, 'val_offset'), L)))
-    consts_ = []
-    consts_.append(('ITER_ARR_JSTEP', step(block_after(it, r'impl<\'a>\s+Iterator\s+for\s+ArrayIterator<\'a>\s*\{'), 'jentry_offset')))
-    consts_.append(('ITER_KEYS_JSTEP', step(block_after(it, r'impl<\'a>\s+Iterator\s+for\s+ObjectKeyIterator<\'a>\s*\{'), 'jentry_offset')))
-    consts_.append(('ITER_ENT_JSTEP', step(block_after(it, r'impl<\'a>\s+Iterator\s+for\s+ObjectEntryIterator<\'a>\s*\{'), 'jentry_offset')))
-    consts_.append(('ITER_FILL_JSTEP', step(fn_body(it, 'fill_keys'), 'jentry_offset')))
-    bl = strip_comments(open(os.path.join(repo, 'src/builder.rs')).read())
-    N_ = {'self.entries.len()': 'n', 'entries.len()': 'n'}
-    ab = block_after(bl, r'impl<\'a>\s+ArrayBuilder<\'a>\s*\{')
-    ob = block_after(bl, r'impl<\'a>\s+ObjectBuilder<\'a>\s*\{')
-    for nm, body, var in (('ARR', fn_body(ab, 'build_into'), 'array_len'), ('OBJ', fn_body(ob, 'build_into'), 'object_len')):
-        m = re.search(r'let\s+mut\s+' + var + r'\s*=\s*([^;]+);', body)
-        r = re.search(r'reserve_jentries\(\s*buf\s*,\s*([^;]+?)\)\s*;', body)
-        if not m or not r:
-            raise TranslateError('builder %s: initial length / reserved size not found' % nm)
-        out.append(('BLD_%s_LEN0' % nm, 'n', arith(m.group(1), N_)))
-        out.append(('BLD_%s_RESERVE' % nm, 'n', arith(r.group(1), N_)))
-    rj = fn_body(bl, 'replace_jentry')
-    m = re.search(r'\*jentry_index\s*\+=\s*([0-9]+)\s*;', rj)
-    if not m:
-        raise TranslateError('replace_jentry stride not found')
-    consts_.append(('BLD_JSTEP', int(m.group(1))))
-    return out, consts_
 
 
 # ---------------------------------------------------------------- anchored expressions (generic, table-driven)
@@ -378,10 +334,28 @@ def offsets(repo):
 #   kind    'expr' (default) | 'width' (group `e` captures an integer type name, the definition is its size in bytes : nat)
 #           | 'require' (no definition: only the `require` patterns are checked, a comment is emitted; used for a guard at a call
 #           site that a proof in coq/ takes as hypothesis, e.g. select_by_indices returns before convert_slice when length == 0)
+#           | 'step' (no `pat`: `var` = regex / role template of a variable; the anchor is the k-th assignment to it in the fn,
+#           `var += e` gives e, `var = rhs` gives rhs - var after resolution (must not mention var); any other compound
+#           assignment to it fails the row).  Written incr(var) in the table.
+#   names   ordered dict role -> how to recognise the Rust identifier that plays it in this fn (function `discover`):
+#           P(k, type regex, usual name) = the k-th parameter (self not counted) if it has that type (and no OTHER parameter
+#           carries the usual name), or a regex with group `v` searched in signature + body: every match must capture the
+#           same identifier (binding statement, e.g. _HDRLEN, or use, e.g. _USE_J).  A list = alternatives.  Roles already found
+#           can be used as `{role}` in later regexes, in `pat`, `var`, `require`.  An operand of `params` that is a role name is
+#           that identifier (recognised by binding), any other operand is taken literally (recognised by spelling).
+#   hoist   dict key -> regex of a sub-expression: `{key}` in `pat` matches the expression written in place or any identifier
+#           bound once, immutably, in the outermost block of the fn, before the anchor, to exactly that expression
+#   alts    list of dicts overriding fields of the row: further shapes of the same site, tried in order after the row itself
+#   synth   template of the expression to translate, `{group}` = named groups of `pat` (a site that says the same thing with
+#           other syntax: `for _ in 0..index` for "while i < index", `i8::try_from(x)` is Ok for "i8::MIN <= x <= i8::MAX")
+#   fmt     'plain' (PLAIN_ROWS): no comment line, no `%N`, parameter list `binder` emitted even when a parameter is unused
+#   affects generated names that rest on a 'require' row (searched by bin/check when the row is stale)
 # Supported Rust syntax: integer literals (dec / hex, `_`, type suffix), identifiers and paths, iN::MIN / iN::MAX / uN::MAX,
 # + - * (binary), unary minus, parentheses, < <= > >= == !=, && || !, `if c { a } else if d { b } else { c }`, `as <int type>`
-# and `.into()` (dropped, recorded), `*x` (dropped), `x.len()`.  Anything else, a pattern that is not found, or found a
-# different number of times than `count`: TranslateError (exit 2, bin/check reports the tie broken).  Never a guess.
+# and `.into()` (dropped, recorded), `*x` (dropped), `x.len()`, `a.min(b)`, `a.max(b)`, `x.clamp(lo, hi)` (the nested ifs of
+# core::cmp::Ord::clamp, plus the obligation lo <= hi -- `assert!(min <= max)` -- in NAME_SAFE), paths to named constants
+# (`crate::constants::X`, `Self::X`).  Anything else, a pattern that is not found, or found a different number of times than
+# `count`: TranslateError = the row is stale (bin/check reports the tie broken for the properties that use it).  Never a guess.
 # `a > b` is emitted as `b <? a` and `a >= b` as `b <=? a` (N has no gtb/geb; same shape as the rest of the model).
 # In N, `-` is refused (N.sub truncates, usize does not).
 
@@ -401,7 +375,7 @@ def int_const(path):
 
 TOKEN_RE = re.compile(r'\s*(?:(?P<num>0x[0-9A-Fa-f_]+|[0-9][0-9_]*)(?P<suf>(?:[iu](?:8|16|32|64|128|size))?)(?![A-Za-z0-9_])'
                       r'|(?P<id>[A-Za-z_][A-Za-z0-9_]*)'
-                      r'|(?P<op>&&|\|\||<=|>=|==|!=|::|[-+*()<>!{}.]))')
+                      r'|(?P<op>&&|\|\||<=|>=|==|!=|::|[-+*()<>!{}.,]))')
 
 
 def tokenize(text):
@@ -536,6 +510,22 @@ class ExprParser:
             elif a[0] == 'var' and call and t1[1] == 'len':
                 self.i += 4
                 a = ('var', a[1] + '.len()')
+            elif t1[1] in ('clamp', 'min', 'max') and t2 == ('op', '(', None):
+                # Ord::clamp / min / max on integers: `x.clamp(lo, hi)` = assert!(lo <= hi); if x < lo { lo } else if x > hi { hi } else { x }
+                self.i += 3
+                args = [self.p_or()]
+                while self.at_op(','):
+                    self.take()
+                    args.append(self.p_or())
+                self.expect_op(')')
+                if t1[1] == 'clamp' and len(args) == 2:
+                    a = ('clamp', a, args[0], args[1])
+                elif t1[1] == 'min' and len(args) == 1:
+                    a = ('if', ('cmp', '<=', a, args[0]), a, args[0])
+                elif t1[1] == 'max' and len(args) == 1:
+                    a = ('if', ('cmp', '>=', a, args[0]), a, args[0])
+                else:
+                    self.err('unsupported call .%s with %d arguments' % (t1[1], len(args)))
             elif a[0] == 'var' and not call and t2 != ('op', '(', None):
                 self.i += 2
                 a = ('var', a[1] + '.' + t1[1])
@@ -570,9 +560,12 @@ class ExprParser:
                 name += '::' + n[1]
             if '::' in name:
                 c = int_const(name)
-                if c is None:
-                    self.err('unsupported path %r' % name)
-                return ('lit', c)
+                if c is not None:
+                    return ('lit', c)
+                last = name.split('::')[-1]
+                if re.fullmatch(r'[A-Z][A-Z0-9_]*', last) and not self.at_op('('):
+                    return ('var', last)          # `crate::constants::X`, `Self::X`: a named constant, resolved like a bare X
+                self.err('unsupported path %r' % name)
             if self.at_op('('):
                 self.err('unsupported call %s(...)' % name)
             return ('var', name)
@@ -618,6 +611,8 @@ def expr_kind(e, text):
     if t == 'if':
         ka, kb = expr_kind(e[2], text), expr_kind(e[3], text)
         return ka if expr_kind(e[1], text) == 'bool' and ka == kb else bad()
+    if t == 'clamp':
+        return 'int' if all(expr_kind(x, text) == 'int' for x in e[1:]) else bad()
     bad()
 
 
@@ -642,7 +637,7 @@ def gallina(e, names, ty, text):
             return 0
         if x[0] == 'bin':
             return 40 if x[1] == '*' else 50
-        return 100
+        return 100          # if / clamp / conditions
 
     def paren(x, maxlvl):
         s = pr(x)
@@ -652,6 +647,8 @@ def gallina(e, names, ty, text):
         t = x[0]
         if t == 'cast':
             return pr(x[2])
+        if t == 'clamp':
+            return pr(clamp_if(x))
         if t == 'lit':
             if x[1] < 0 and ty == 'N':
                 raise TranslateError('negative constant in an N expression %r' % text)
@@ -684,6 +681,11 @@ def gallina(e, names, ty, text):
             return 'if %s then %s else %s' % (pr(x[1]), paren(x[2], 50), pr(x[3]) if x[3][0] == 'if' else paren(x[3], 50))
         raise TranslateError('internal: node %r' % (t,))
     return pr(e)
+
+
+def clamp_if(x):
+    """the value of `x.clamp(lo, hi)` (core::cmp::Ord::clamp) as nested ifs"""
+    return ('if', ('cmp', '<', x[1], x[2]), x[2], ('if', ('cmp', '>', x[1], x[3]), x[3], x[1]))
 
 
 def obligations(e, pc, mach, out):
@@ -721,6 +723,11 @@ def obligations(e, pc, mach, out):
         obligations(e[1], pc, mach, out)
         obligations(e[2], pc + [(e[1], True)], mach, out)
         return obligations(e[3], pc + [(e[1], False)], mach, out)
+    if t == 'clamp':        # the three operands are evaluated once; `assert!(lo <= hi)` panics otherwise
+        for x in e[1:]:
+            obligations(x, pc, mach, out)
+        out.append((pc, 'assert', ('cmp', '<=', e[2], e[3])))
+        return out
     raise TranslateError('internal: node %r' % (t,))
 
 
@@ -731,23 +738,11 @@ def safe_prop(ast, names, ty, mach, text):
     parts = []
     for pc, T, e in obs:
         hyps = ''.join('(%s)%%%s = %s -> ' % (gallina(c, names, ty, text), ty, 'true' if b else 'false') for c, b in pc)
-        parts.append('(%sIN_%s (%s)%%%s)' % (hyps, T, gallina(e, names, ty, text), ty))
+        if T == 'assert':
+            parts.append('(%s(%s)%%%s = true)' % (hyps, gallina(e, names, ty, text), ty))
+        else:
+            parts.append('(%sIN_%s (%s)%%%s)' % (hyps, T, gallina(e, names, ty, text), ty))
     return ' /\\ '.join(parts)
-
-
-def translate_expr(text, params, ty, mach=None):
-    """Rust expression text -> (kind, Gallina body, cast types seen[, range obligations as a Prop when mach is given])"""
-    p = ExprParser(text)
-    ast = p.parse()
-    kind = expr_kind(ast, text)
-    names = dict(params)
-    used = set(expr_vars(ast, []))
-    for rust, _ in params:
-        if rust not in used:
-            raise TranslateError('operand %r no longer occurs in expression %r' % (rust, text))
-    if mach:
-        return kind, gallina(ast, names, ty, text), p.casts, safe_prop(ast, names, ty, mach, text)
-    return kind, gallina(ast, names, ty, text), p.casts
 
 
 def impl_body(src, header_re):
@@ -769,79 +764,548 @@ def cmt(text):
     return re.sub(r'\s+', ' ', text.strip()).replace('*)', '* )').replace('(*', '( *').replace('"', "''")
 
 
-def anchored(repo, row):
-    """one ANCHORS row -> list of Coq lines (comment + definition)"""
-    src = rust_src(repo, row['file'])
-    if row.get('impl'):
-        src = impl_body(src, row['impl'])
-    if row.get('fn'):
-        body = fn_body(src, row['fn'])
-        whole = fn_text(src, row['fn'])
-        where = '%s fn %s' % (row['file'], row['fn'])
-    else:
-        body = whole = src
-        where = row['file']
-    if row.get('kind') == 'require':
+# ---------------------------------------------------------------- scopes: what an identifier of an anchored expression denotes
+# RESOLUTION.  An identifier of an anchored expression that is not an operand of the row is resolved, never guessed:
+#  (a) a `const NAME: <int type> = <expr>;` of the same file (exactly one), else of src/constants.rs -> its expression;
+#  (b) an immutable `let NAME [: T] = <expr>;` of the enclosing fn that is the ONLY binding of NAME in that fn (no second
+#      `let`, no pattern / closure / `for` / match-arm / parameter binding, never assigned, never `&mut`), lies before the
+#      anchor and in a block that encloses it -> its expression, resolved at the position of the `let`; every variable the
+#      expression finally depends on must not be assigned between that `let` and the anchor (nor anywhere in a loop that
+#      encloses the anchor but not the `let`), so the value substituted is the value the code uses.  Depth-limited.
+#  (c) an operand of the row that has a ROLE (`names`) is recognised by its binding, not by its spelling: a parameter by its
+#      position and type, a local by the statement that binds it (`let X = (header & CONTAINER_HEADER_LEN_MASK) as usize;`)
+#      or by the place it is used (`read_u32(value, X)`), see `names` in the row format.
+# Everything else: TranslateError.
+def scan_pairs(text):
+    """matching braces of `text` (string / char literals skipped): dict open index -> close index"""
+    stack, pairs = [], {}
+    j, n = 0, len(text)
+    while j < n:
+        c = text[j]
+        if c == '"':
+            j += 1
+            while j < n and text[j] != '"':
+                j += 2 if text[j] == '\\' else 1
+        elif c == "'":
+            m = re.match(r"'(?:\\(?:x[0-9A-Fa-f]{2}|u\{[0-9A-Fa-f]+\}|.)|[^'\\])'", text[j:j + 12])
+            if m:
+                j += m.end() - 1
+        elif c == '{':
+            stack.append(j)
+        elif c == '}' and stack:
+            pairs[stack.pop()] = j
+        j += 1
+    return pairs
+
+
+def split_commas(text):
+    out, depth, last = [], 0, 0
+    for i, c in enumerate(text):
+        if c in '([{<':
+            depth += 1
+        elif c in ')]}>' and not (c == '>' and i > 0 and text[i - 1] == '-'):
+            depth -= 1
+        elif c == ',' and depth == 0:
+            out.append(text[last:i])
+            last = i + 1
+    out.append(text[last:])
+    return [x.strip() for x in out if x.strip()]
+
+
+def parse_params(sig):
+    """[(name, type)] of a fn signature, the `self` receiver excluded"""
+    m = re.search(r'\bfn\s+\w+', sig)
+    if not m:
+        return []
+    i, depth = m.end(), 0
+    while i < len(sig) and not (sig[i] == '(' and depth == 0):
+        if sig[i] == '<':
+            depth += 1
+        elif sig[i] == '>':
+            depth -= 1
+        i += 1
+    if i >= len(sig):
+        return []
+    j, depth = i, 0
+    while j < len(sig):
+        if sig[j] == '(':
+            depth += 1
+        elif sig[j] == ')':
+            depth -= 1
+            if depth == 0:
+                break
+        j += 1
+    out = []
+    for p in split_commas(sig[i + 1:j]):
+        if re.fullmatch(r"&?\s*(?:'\w+\s+)?(?:mut\s+)?self(?:\s*:.*)?", p, flags=re.S):
+            continue
+        pm = re.fullmatch(r'(?:mut\s+)?([A-Za-z_]\w*)\s*:\s*(.*)', p, flags=re.S)
+        out.append((pm.group(1), re.sub(r'\s+', ' ', pm.group(2).strip())) if pm else ('?', p))
+    return out
+
+
+def fn_parts(src, name):
+    """(signature, brace-balanced body) of fn `name`"""
+    m = re.search(r'fn\s+' + re.escape(name) + r'\b', src)
+    if not m:
+        raise TranslateError('function %s not found' % name)
+    i = src.index('{', m.end())
+    j = match_brace(src, i)
+    if j < 0:
+        raise TranslateError('unbalanced braces in %s' % name)
+    return src[m.start():i], src[i:j]
+
+
+ASSIGN_OPS = r'(?:[-+*/%|&^]|<<|>>)?=(?![=>])'
+
+
+class FnScope:
+    """bindings of one fn: text = signature + body; positions are offsets into text"""
+
+    def __init__(self, sig, body):
+        self.sig, self.body = sig, body
+        self.text = sig + body
+        self.off = len(sig)
+        self.pairs = scan_pairs(self.text)
+        self.params = parse_params(sig)
+        self.lets = []
+        for m in re.finditer(r'\blet\s+(mut\s+)?([A-Za-z_]\w*)\s*(?::\s*([^=;]+?))?\s*=(?!=)', self.text):
+            j, depth, n = m.end(), 0, len(self.text)
+            while j < n:
+                c = self.text[j]
+                if c == '"':
+                    j += 1
+                    while j < n and self.text[j] != '"':
+                        j += 2 if self.text[j] == '\\' else 1
+                elif c in '([{':
+                    depth += 1
+                elif c in ')]}':
+                    depth -= 1
+                    if depth < 0:
+                        break
+                elif c == ';' and depth == 0:
+                    break
+                j += 1
+            self.lets.append(dict(name=m.group(2), mut=bool(m.group(1)), rhs=self.text[m.end():j].strip(), start=m.start(), end=j + 1))
+        self.loops = []
+        for m in re.finditer(r'\b(?:for|while|loop)\b[^{};]*\{', self.text):
+            o = m.end() - 1
+            if o in self.pairs:
+                self.loops.append((m.start(), self.pairs[o]))
+
+    def lets_named(self, name):
+        return [l for l in self.lets if l['name'] == name]
+
+    def block_of(self, pos):
+        best = (0, len(self.text))
+        for o, c in self.pairs.items():
+            if o < pos <= c and o > best[0]:
+                best = (o, c)
+        return best
+
+    def arm_pattern(self, pos):
+        """text of the match-arm pattern that ends at the `=>` at pos"""
+        j, depth = pos - 1, 0
+        while j >= 0:
+            c = self.text[j]
+            if c in ')]':
+                depth += 1
+            elif c in '([':
+                depth -= 1
+                if depth < 0:
+                    break
+            elif depth == 0 and c in '{};,':
+                break
+            j -= 1
+        return self.text[j + 1:pos]
+
+    def other_binders(self, name):
+        """places other than a simple `let [mut] name [: T] =` that bind `name` (conservative: guards count too)"""
+        w = re.compile(r'(?<![\w.])' + re.escape(name) + r'\b')
+        t = self.text
         found = []
-        for rq in row['require']:
-            m = re.search(rq, whole)
-            if not m:
-                raise TranslateError('%s: %s: required context not found (pattern %s)' % (row['name'], where, rq))
-            found.append(cmt(m.group(0)))
-        return ['(* %s: %s: the source contains %s *)' % (row['name'], where, '; '.join('`%s`' % f for f in found))]
-    ms = list(re.finditer(row['pat'], body))
+        for m in re.finditer(r'\blet\s+([^=;]*?)=(?!=)', t):
+            if not re.fullmatch(r'\s*(?:mut\s+)?[A-Za-z_]\w*\s*(?::[^=;]*)?', m.group(1)) and w.search(m.group(1)):
+                found.append('pattern `let %s`' % m.group(1).strip())
+        for m in re.finditer(r'\bfor\s+(.*?)\s+in\b', t, flags=re.S):
+            if w.search(m.group(1)):
+                found.append('`for %s in`' % m.group(1).strip())
+        for m in re.finditer(r'(?<!\|)\|([^|;{}()]*)\|(?!\|)', t):
+            if w.search(m.group(1)):
+                found.append('closure parameter / `|` expression')
+        for m in re.finditer(r'=>', t):
+            if w.search(self.arm_pattern(m.start())):
+                found.append('match arm `%s =>`' % self.arm_pattern(m.start()).strip())
+        if any(p == name for p, _ in self.params):
+            found.append('fn parameter')
+        return found
+
+    def assignments(self, name, a, b):
+        """assignments (plain or compound, through a deref or not) to `name` in text[a:b], the `let`s excluded"""
+        out = []
+        for m in re.finditer(r'(?<![\w.])\*?\s*' + re.escape(name) + r'\s*' + ASSIGN_OPS, self.text[a:b]):
+            if not re.search(r'\blet\s+(?:mut\s+)?$', self.text[max(0, a + m.start() - 16):a + m.start()]):
+                out.append(a + m.start())
+        for m in re.finditer(r'&\s*mut\s+' + re.escape(name) + r'\b', self.text[a:b]):
+            out.append(a + m.start())
+        return out
+
+    def stable_let(self, name, pos):
+        ls = self.lets_named(name)
+        if len(ls) != 1:
+            raise TranslateError('`%s` is bound by %d `let`s in the fn' % (name, len(ls)))
+        l = ls[0]
+        if l['mut']:
+            raise TranslateError('`%s` is `let mut`' % name)
+        ob = self.other_binders(name)
+        if ob:
+            raise TranslateError('`%s` is also bound elsewhere (%s)' % (name, ob[0]))
+        if self.assignments(name, 0, len(self.text)):
+            raise TranslateError('`%s` is assigned or mutably borrowed' % name)
+        blk = self.block_of(l['start'])
+        if not (l['end'] <= pos and blk[0] < pos <= blk[1]):
+            raise TranslateError('the `let %s` is not in scope at the anchor' % name)
+        return l
+
+    def check_unchanged(self, leaves, a, b):
+        """the variables in `leaves` keep their value from position a (end of a `let`) to position b (the anchor)"""
+        spans = [(a, b)] + [(lo, hi) for lo, hi in self.loops if lo < b <= hi and not (lo < a <= hi)]
+        for leaf in leaves:
+            root = leaf
+            if leaf.endswith('.len()'):
+                root = leaf[:-6]
+                for lo, hi in spans:
+                    for m in re.finditer(r'(?<![\w.])' + re.escape(root) + r'\b(?!\s*(?:\.len\(\)|\.iter\(\)|\.keys\(\)|\.values\(\)|\.is_empty\(\)|\[))', self.text[lo:hi]):
+                        raise TranslateError('`%s` is used between the `let` and the anchor in a way that may change `%s`' % (root, leaf))
+            for lo, hi in spans:
+                if self.assignments(root, lo, hi):
+                    raise TranslateError('`%s` is assigned between the `let` that uses it and the anchor' % root)
+
+
+class ConstTable:
+    """named integer constants: of the file itself, then of src/constants.rs"""
+    RX = r'\bconst\s+%s\s*:\s*([\w:]+)\s*=\s*([^;]+);'
+
+    def __init__(self, repo, rel):
+        self.srcs = [(rel, rust_src(repo, rel))]
+        if rel != 'src/constants.rs':
+            self.srcs.append(('src/constants.rs', rust_src(repo, 'src/constants.rs')))
+
+    def lookup(self, name, casts, notes, depth=0):
+        if depth > 6:
+            raise TranslateError('constant %s: definitions nested too deeply' % name)
+        for rel, src in self.srcs:
+            ms = re.findall(self.RX % re.escape(name), src)
+            if len(ms) > 1:
+                raise TranslateError('constant %s is defined %d times in %s' % (name, len(ms), rel))
+            if len(ms) == 1:
+                T, text = ms[0][0].split('::')[-1], re.sub(r'\s+', ' ', ms[0][1].strip())
+                if T not in INT_TYPES:
+                    raise TranslateError('constant %s has the non-integer type %s' % (name, T))
+                p = ExprParser(text)
+                ast = p.parse()
+                casts.extend(p.casts)
+                notes.append('const %s = %s' % (name, text))
+                return self.subst(ast, casts, notes, depth)
+        return None
+
+    def subst(self, e, casts, notes, depth):
+        if e[0] == 'var':
+            r = self.lookup(e[1], casts, notes, depth + 1) if re.fullmatch(r'[A-Za-z_]\w*', e[1]) else None
+            if r is None:
+                raise TranslateError('unknown name %r in a constant definition' % e[1])
+            return r
+        return tuple(self.subst(x, casts, notes, depth) if isinstance(x, tuple) else x for x in e)
+
+
+class Resolver:
+    MAXDEPTH = 8
+
+    def __init__(self, scope, ctab, rmap, literal, final):
+        self.scope, self.ctab, self.rmap, self.literal, self.final = scope, ctab, rmap, literal, final
+        self.casts, self.notes = [], []
+
+    def res(self, e, pos, depth, leaves):
+        if e[0] == 'lit':
+            return e
+        if e[0] == 'var':
+            return self.var(e[1], pos, depth, leaves)
+        return tuple(self.res(x, pos, depth, leaves) if isinstance(x, tuple) else x for x in e)
+
+    def var(self, name, pos, depth, leaves):
+        if name in self.rmap:
+            leaves.add(name)
+            return ('var', self.rmap[name])
+        if name in self.literal:
+            leaves.add(name)
+            return ('var', name)
+        if not re.fullmatch(r'[A-Za-z_]\w*', name):
+            raise TranslateError('unknown operand %r' % name)
+        if depth >= self.MAXDEPTH:
+            raise TranslateError('bindings nested too deeply at %r' % name)
+        if self.scope is not None and self.scope.lets_named(name):
+            l = self.scope.stable_let(name, pos)
+            try:
+                p = ExprParser(re.sub(r'\s+', ' ', l['rhs']))
+                ast = p.parse()
+            except TranslateError as e:
+                raise TranslateError('`%s` is not an operand of this row and its binding cannot be substituted (%s)' % (name, e))
+            sub = set()
+            r = self.res(ast, l['start'], depth + 1, sub)
+            self.scope.check_unchanged(sub, l['end'], self.final)
+            self.casts.extend(p.casts)
+            self.notes.append('let %s = %s' % (name, re.sub(r'\s+', ' ', l['rhs'])))
+            leaves |= sub
+            return r
+        if self.scope is not None and any(p == name for p, _ in self.scope.params):
+            raise TranslateError('unknown name %r (a parameter of the fn that is not an operand of this row)' % name)
+        c = self.ctab.lookup(name, self.casts, self.notes)
+        if c is not None:
+            return c
+        raise TranslateError('unknown name %r' % name)
+
+
+def fill(rx, found, hoists=None):
+    for k, v in found.items():
+        rx = rx.replace('{' + k + '}', re.escape(v))
+    for k, v in (hoists or {}).items():
+        rx = rx.replace('{' + k + '}', v)
+    return rx
+
+
+def discover(row, scope):
+    """the Rust spelling of every role of the row: dict role -> identifier"""
+    found = {}
+    for key, spec in (row.get('names') or {}).items():
+        errs = []
+        for sp in (spec if isinstance(spec, list) else [spec]):
+            try:
+                if isinstance(sp, tuple):
+                    _, idx, tyre, default = sp
+                    ps = scope.params
+                    if idx >= len(ps):
+                        raise TranslateError('role %s: the fn has no parameter %d' % (key, idx))
+                    nm, ty = ps[idx]
+                    if not re.fullmatch(tyre, ty.replace(' ', '')):
+                        raise TranslateError('role %s: parameter %d (`%s: %s`) does not have the expected type %s' % (key, idx, nm, ty, tyre))
+                    if nm != default and any(p == default for p, _ in ps):
+                        raise TranslateError('role %s: parameter %d is `%s` but another parameter is called `%s`' % (key, idx, nm, default))
+                    found[key] = nm
+                else:
+                    vals = sorted(set(m.group('v') for m in re.finditer(fill(sp, found), scope.text)))
+                    if len(vals) != 1:
+                        raise TranslateError('role %s: %s (pattern %s)' % (key, 'binding not found' if not vals else 'ambiguous: ' + ', '.join(vals), sp))
+                    found[key] = vals[0]
+                break
+            except TranslateError as e:
+                errs.append(str(e))
+        else:
+            raise TranslateError('; '.join(errs))
+    return found
+
+
+_SCOPE_CACHE = {}
+
+
+def row_scope(repo, row):
+    key = (repo, row['file'], row.get('impl'), row.get('fn'))
+    if key not in _SCOPE_CACHE:
+        src = rust_src(repo, row['file'])
+        if row.get('impl'):
+            src = impl_body(src, row['impl'])
+        _SCOPE_CACHE[key] = FnScope(*fn_parts(src, row['fn'])) if row.get('fn') else None
+    return _SCOPE_CACHE[key]
+
+
+def rename(e, names, text):
+    if e[0] == 'var':
+        if e[1] not in names:
+            raise TranslateError('unknown name %r in expression %r' % (e[1], text))
+        return ('var', names[e[1]])
+    return tuple(rename(x, names, text) if isinstance(x, tuple) else x for x in e)
+
+
+def anchored1(repo, row):
+    """one ANCHORS row (one alternative) -> dict describing the generated definition"""
+    name = row['name']
+    scope = row_scope(repo, row)
+    if scope is not None:
+        body, whole, where = scope.body, scope.text, '%s fn %s' % (row['file'], row['fn'])
+    else:
+        body = whole = rust_src(repo, row['file'])
+        where = row['file']
+    found = discover(row, scope) if scope is not None else {}
+    hoists, hoisted = {}, []
+    for key, rx in (row.get('hoist') or {}).items():
+        alts_ = [fill(rx, found)]
+        for l in (scope.lets if scope is not None else []):
+            if not l['mut'] and re.fullmatch(alts_[0], l['rhs']):
+                try:
+                    scope.stable_let(l['name'], len(whole) - 1)     # bound once, in the outermost block of the fn
+                    alts_.append(re.escape(l['name']))
+                    hoisted.append(l)
+                except TranslateError:
+                    pass
+        hoists[key] = '(?:' + '|'.join(alts_) + ')'
+    requires = []
+    for rq in row.get('require', []):
+        m = re.search(fill(rq, found, hoists), whole)
+        if not m:
+            raise TranslateError('%s: %s: required context not found (pattern %s)' % (name, where, rq))
+        requires.append(cmt(m.group(0)))
+    if row.get('kind') == 'require':
+        return dict(name=name, kind='require', comment='(* %s: %s: the source contains %s *)' % (name, where, '; '.join('`%s`' % f for f in requires)), defs=[])
     count = row.get('count', 1)
+    if row.get('kind') == 'step':
+        var = fill(row['var'], found)
+        ms = [m for m in re.finditer(r'(?<![\w.])\*?\s*(?P<x>' + var + r')\s*(?P<op>' + ASSIGN_OPS + r')\s*(?P<e>[^;]*);', body)
+              if not re.search(r'\blet\s+(?:mut\s+)?$', body[max(0, m.start() - 16):m.start()])]
+        patdesc = 'assignments to ' + var
+    else:
+        pat = fill(row['pat'], found, hoists)
+        ms = list(re.finditer(pat, body))
+        patdesc = 'pattern ' + pat
     if len(ms) != count:
-        raise TranslateError('%s: %s: anchor found %d times, expected %d (pattern %s)' % (row['name'], where, len(ms), count, row['pat']))
+        raise TranslateError('%s: %s: anchor found %d times, expected %d (%s)' % (name, where, len(ms), count, patdesc))
     m = ms[row.get('occ', 0)]
+    for l in hoisted:
+        if re.search(r'\b%s\b' % re.escape(l['name']), m.group(0)) and not l['end'] <= (scope.off + m.start()):
+            raise TranslateError('%s: %s: `%s` is used before its `let`' % (name, where, l['name']))
     text = re.sub(r'\s+', ' ', m.group('e').strip())
     ty = row.get('ty', 'Z')
     if row.get('kind') == 'width':
         if text not in INT_TYPES or text in ('usize', 'isize'):
-            raise TranslateError('%s: %s: %r is not a sized integer type' % (row['name'], where, text))
-        return ['(* %s: `%s` *)' % (where, cmt(m.group(0))),
-                'Definition %s : nat := %d%%nat.' % (row['name'], INT_TYPES[text] // 8)]
+            raise TranslateError('%s: %s: %r is not a sized integer type' % (name, where, text))
+        return dict(name=name, kind='width', comment='(* %s: `%s` *)' % (where, cmt(m.group(0))),
+                    defs=['Definition %s : nat := %d%%nat.' % (name, INT_TYPES[text] // 8)])
+    if row.get('synth'):
+        text = row['synth']
+        for g, v in m.groupdict().items():
+            text = text.replace('{' + g + '}', re.sub(r'\s+', ' ', (v or '').strip()))
     try:
-        safe = None
-        if row.get('safe'):
-            kind, body_, casts, safe = translate_expr(text, row['params'], ty, row['mach'])
+        p = ExprParser(text)
+        ast = p.parse()
+        keys = set((row.get('names') or {}).keys())
+        ops = [o for o, _ in row['params']]
+        rmap = dict((found[o], o) for o in ops if o in keys)
+        literal = set(o for o in ops if o not in keys)
+        selfname = None
+        if row.get('kind') == 'step':
+            if m.group('op') not in ('=', '+='):
+                raise TranslateError('the variable is updated with `%s`' % m.group('op'))
+            if m.group('op') == '=':
+                selfname = m.group('x').strip()
+                if selfname in rmap or selfname in literal:
+                    raise TranslateError('the updated variable is an operand')
+                rmap[selfname] = '\x00self'
+        rs = Resolver(scope, ConstTable(repo, row['file']), rmap, literal,
+                      (scope.off if scope is not None else 0) + (m.start() if row.get('kind') == 'step' else m.start('e')))
+        ast = rs.res(ast, rs.final, 0, set())
+        casts = p.casts + rs.casts
+        if selfname is not None:
+            import normform
+            d = normform.p_add(normform.nf_int(ast, ty), normform.p_var('\x00self'), -1)
+            if any('\x00self' in a for mono in d for a in mono):
+                raise TranslateError('`%s = %s` is not `%s + <increment>`' % (selfname, text, selfname))
+            ast = normform.poly_to_ast(d, ty)
+        kind = expr_kind(ast, text)
+        names = dict(row['params'])
+        if 'binder' in row:
+            seen = list(row['binder'])
         else:
-            kind, body_, casts = translate_expr(text, row['params'], ty)
+            used = set(expr_vars(ast, []))
+            for rust, _ in row['params']:
+                if rust not in used:
+                    raise TranslateError('operand %r no longer occurs in expression %r' % (found.get(rust, rust), text))
+            seen = []
+            for p_ in [c for _, c in row['params']]:
+                if p_ not in seen:
+                    seen.append(p_)
+        cast = rename(ast, names, text)           # the AST over the Coq parameter names
+        idn = dict((v, v) for v in names.values())
+        body_ = gallina(cast, idn, ty, text)
+        obs = obligations(cast, [], row['mach'], []) if row.get('safe') else None
+        safe = safe_prop(cast, idn, ty, row['mach'], text) if row.get('safe') else None
     except TranslateError as e:
-        raise TranslateError('%s: %s: %s' % (row['name'], where, e))
-    seen = []
-    for p_ in [c for _, c in row['params']]:
-        if p_ not in seen:
-            seen.append(p_)
+        raise TranslateError('%s: %s: %s' % (name, where, e))
+    except Exception as e:      # normform errors
+        raise TranslateError('%s: %s: %s' % (name, where, e))
+    rty = 'bool' if kind == 'bool' else ty
+    if row.get('fmt') == 'plain':
+        binder = ' (%s : %s)' % (' '.join(seen), ty) if seen else ''
+        return dict(name=name, kind='expr', comment=None, defs=['Definition %s%s : %s := %s.' % (name, binder, rty, body_)],
+                    ekind=kind, ty=ty, ast=cast, binder=seen, rty=rty, obs=None, source=text, notes=rs.notes)
     binder = ' (%s : %s)' % (' '.join(seen), ty) if seen else ''
     note = 'computed in %s' % row['mach'] if row.get('mach') else ''
     if casts:
         note += ('; ' if note else '') + 'casts dropped: ' + ', '.join(casts)
-    for rq in row.get('require', []):
-        if not re.search(rq, whole):
-            raise TranslateError('%s: %s: required context not found (pattern %s)' % (row['name'], where, rq))
-    out = ['(* %s: `%s`%s *)' % (where, cmt(text), (' -- ' + note) if note else ''),
-           'Definition %s%s : %s := (%s)%%%s.' % (row['name'], binder, 'bool' if kind == 'bool' else ty, body_, ty)]
+    shown = cmt(text) if not row.get('synth') else cmt(m.group(0)) + ' read as ' + cmt(text)
+    if rs.notes:
+        shown += '` where `' + '`, `'.join(cmt(n) for n in rs.notes)
+    defs = ['Definition %s%s : %s := (%s)%%%s.' % (name, binder, rty, body_, ty)]
     if safe is not None:
-        out.append('Definition %s_SAFE%s : Prop := %s.' % (row['name'], binder, safe))
-    return out
+        defs.append('Definition %s_SAFE%s : Prop := %s.' % (name, binder, safe))
+    return dict(name=name, kind='expr', comment='(* %s: `%s`%s *)' % (where, shown, (' -- ' + note) if note else ''), defs=defs,
+                ekind=kind, ty=ty, ast=cast, binder=seen, rty=rty, obs=obs, source=text, notes=rs.notes)
 
+
+def anchored(repo, row):
+    """one ANCHORS row -> dict (see anchored1); the alternatives `alts` of the row are tried in order"""
+    errs = []
+    for alt in [{}] + list(row.get('alts', [])):
+        r = dict(row)
+        r.update(alt)
+        try:
+            return anchored1(repo, r)
+        except TranslateError as e:
+            errs.append(str(e))
+    raise TranslateError(' || '.join(errs))
 
 
 def letmut(var):
     return r'let\s+mut\s+' + var + r'\s*=\s*(?P<e>[^;]*);'
 
 
-def incr(var):
-    return r'(?<![\w*])' + var + r'\s*\+=\s*(?P<e>[^;]*);'
-
-
 def nrow(name, file, fn, pat, params, **kw):
-    """a row of usize arithmetic, emitted in N"""
-    d = dict(name=name, file=file, fn=fn, pat=pat, params=params, ty='N', mach='usize')
+    """a row of usize arithmetic, emitted in N; pat = ('step', variable regex) for the increment of a variable"""
+    d = dict(name=name, file=file, fn=fn, params=params, ty='N', mach='usize')
+    if isinstance(pat, tuple):
+        d.update(kind='step', var=pat[1])
+    else:
+        d['pat'] = pat
     d.update(kw)
     return d
 
+
+def incr(var):
+    """the amount a variable is advanced by: `var += e;`, or `var = <something that resolves to var + e>;`"""
+    return ('step', var)
+
+
+def P(idx, ty, default):
+    """role of a fn parameter: position (the `self` receiver not counted), regex of its type (blanks removed), usual name"""
+    return ('param', idx, ty, default)
+
+
+# the entry count of a container: the local bound to `(<header> & CONTAINER_HEADER_LEN_MASK) as usize`
+_HDRLEN = r'let\s+(?P<v>\w+)\s*=\s*\(\s*{header}\s*&\s*CONTAINER_HEADER_LEN_MASK\s*\)\s*as\s+usize\s*;'
+_HL = {'length': _HDRLEN.replace('{header}', 'header')}
+# roles recognised by USE: the variable every `read_u32(buf, X)` of the fn reads at, the third component of the result,
+# the upper bound of the key slice
+_USE_J = r'read_u32\(\s*\w+\s*,\s*(?P<v>\w+)\s*\)'
+_USE_V = r'Some\(\(\s*\w+\s*,\s*\w+\s*,\s*(?P<v>\w+)\s*\)\)'
+_USE_K = r'from_utf8_unchecked\(\s*&\w+\[\s*\w+\s*\.\.\s*(?P<v>\w+)\s*\]\s*\)'
+_JBI = {'offset': P(1, 'usize', 'offset'), 'header': P(2, 'u32', 'header'), 'index': P(3, 'usize', 'index'), 'length': _HDRLEN,
+        'J': _USE_J, 'V': _USE_V}
+_JBN = {'offset': P(1, 'usize', 'offset'), 'header': P(2, 'u32', 'header'), 'length': _HDRLEN, 'J': _USE_J, 'V': _USE_V, 'K': _USE_K}
+_CMPN = {'left_header': P(0, 'u32', 'left_header'), 'right_header': P(2, 'u32', 'right_header'),
+         'left_length': _HDRLEN.replace('{header}', '{left_header}'), 'right_length': _HDRLEN.replace('{header}', '{right_header}')}
+_CVN = {'length': P(1, 'usize', 'length')}
+_CTS = {'offset': P(1, '&mutusize', 'offset'), 'length': _HDRLEN.replace('{header}', 'header')}
+_SELN = {'root_offset': P(1, 'usize', 'root_offset'),
+         'length': r'let\s*\(\s*\w+\s*,\s*\(\s*\w+\s*,\s*(?P<v>\w+)\s*\)\s*\)\s*=\s*decode_header\('}
+_BSA = {'poses': P(1, '&mutVecDeque<Position>', 'poses'), 'data': P(2, '&mutVec<u8>', 'data'),
+        'len': r'let\s+(?P<v>\w+)\s*=\s*{poses}\.len\(\)\s*;', 'J': r'let\s+mut\s+(?P<v>\w+)\s*=\s*{data}\.len\(\)\s*;'}
 
 _O = [('offset', 'offset')]
 _L = [('length', 'length')]
@@ -855,6 +1319,12 @@ _CE_EQ = r'(?<!else\s)if\s+(?P<e>\*v\s*==[^{]*?)\s*\{'
 _CE_GE = r'if\s+(?P<e>\*v\s*>=[^{]*?)\s*\{'
 _CE_LE = r'if\s+(?P<e>\*v\s*<=[^{]*?)\s*\{'
 _CE_W = r'\(\*v\s+as\s+(?P<e>\w+)\)\s*\.to_be_bytes\(\)'
+# the same width selection written with the checked conversion: `if let Ok(n) = i8::try_from(*v) { .. n.to_be_bytes() .. }`.
+# `T::try_from(x)` on integers is Ok exactly when T::MIN <= x <= T::MAX (core::convert::TryFrom between integer types), and then
+# holds the value of `x as T`
+_CE_TRY_I = dict(pat=r'if\s+let\s+Ok\(\s*\w+\s*\)\s*=\s*(?P<T>i(?:8|16|32))::try_from\(\s*(?P<e>\*v)\s*\)\s*\{', synth='{e} >= {T}::MIN.into() && {e} <= {T}::MAX.into()')
+_CE_TRY_U = dict(pat=r'if\s+let\s+Ok\(\s*\w+\s*\)\s*=\s*(?P<T>u(?:8|16|32))::try_from\(\s*(?P<e>\*v)\s*\)\s*\{', synth='{e} >= {T}::MIN.into() && {e} <= {T}::MAX.into()')
+_CE_TRY_W = dict(pat=r'if\s+let\s+Ok\(\s*(?P<n>\w+)\s*\)\s*=\s*(?P<e>[iu](?:8|16|32))::try_from\(\s*\*v\s*\)\s*\{\s*writer\.write_all\(\s*&(?P=n)\.to_be_bytes\(\)\s*\)')
 FN = 'src/functions.rs'
 
 SEL = 'src/jsonpath/selector.rs'
@@ -886,11 +1356,15 @@ ANCHORS = [
     dict(name='DBI_B_SKIP', file=FN, fn='delete_jsonb_by_index', pat=_IF_INDEX, params=_IL, mach='i32', safe=True, require=_RQ_DBI_B),
     # array_insert_jsonb (the text branch re-encodes and calls it: one site)
     dict(name='AI_NONARRAY_LEN', file=FN, fn='array_insert_jsonb',
-         pat=r'let\s+len\s*=\s*if\s+header\s*&\s*CONTAINER_HEADER_TYPE_MASK\s*==\s*ARRAY_CONTAINER_TAG\s*\{\s*\(header\s*&\s*CONTAINER_HEADER_LEN_MASK\)\s*as\s+i32\s*\}\s*else\s*\{\s*(?P<e>[^}]*?)\s*\}\s*;',
+         hoist={'TY': r'header\s*&\s*CONTAINER_HEADER_TYPE_MASK'},      # written in place, or hoisted into a `let`
+         pat=r'let\s+len\s*=\s*if\s+{TY}\s*==\s*ARRAY_CONTAINER_TAG\s*\{\s*\(header\s*&\s*CONTAINER_HEADER_LEN_MASK\)\s*as\s+i32\s*\}\s*else\s*\{\s*(?P<e>[^}]*?)\s*\}\s*;',
          params=[], mach='i32', safe=True, require=_RQ_AI),
+    # `idx` is bound twice: resolved against the length, then clamped into 0..=len (alternative location: 1st / 2nd `let idx`)
     dict(name='AI_RESOLVE', file=FN, fn='array_insert_jsonb', pat=r'let\s+idx\s*=\s*(?P<e>if\s+pos\b[^;]*);',
-         params=[('pos', 'pos'), ('len', 'len')], mach='i32', safe=True, require=_RQ_AI),
-    dict(name='AI_CLAMP', file=FN, fn='array_insert_jsonb', pat=r'let\s+idx\s*=\s*(?P<e>if\s+idx\b[^;]*);', params=_XL, mach='i32', safe=True, require=_RQ_AI),
+         params=[('pos', 'pos'), ('len', 'len')], mach='i32', safe=True, require=_RQ_AI,
+         alts=[dict(pat=r'let\s+idx\s*=\s*(?P<e>[^;]*);', count=2, occ=0)]),
+    dict(name='AI_CLAMP', file=FN, fn='array_insert_jsonb', pat=r'let\s+idx\s*=\s*(?P<e>if\s+idx\b[^;]*);', params=_XL, mach='i32', safe=True, require=_RQ_AI,
+         alts=[dict(pat=r'let\s+idx\s*=\s*(?P<e>[^;]*);', count=2, occ=1)]),
     # get_by_keypath: occurrence 0 = Value (text) branch, occurrence 1 = byte branch
     dict(name='GBK_T_REJECT', file=FN, fn='get_by_keypath', pat=_GBK_REJECT, count=2, occ=0, params=_XN, mach='i32', safe=True, require=_RQ_GBK),
     dict(name='GBK_T_INDEX', file=FN, fn='get_by_keypath', pat=_GBK_INDEX, count=2, occ=0, params=_XN, mach='i32', safe=True, require=_RQ_GBK),
@@ -908,36 +1382,39 @@ ANCHORS = [
     dict(name='CS_END_LAST', file=SEL, fn='convert_slice', pat=_LAST, count=2, occ=1, params=_XN, mach='i64', safe=True, require=_RQ_SEL),
     dict(name='CS_EMPTY', file=SEL, fn='convert_slice', pat=r'(?<!=\s)if\s+(?P<e>start\b[^{]*?)\s*\{',
          params=[('start', 'start'), ('end', 'stop'), ('length', 'length')], mach='i64', safe=True, require=_RQ_SEL),
-    dict(name='SBI_NONEMPTY', kind='require', file=SEL, fn='select_by_indices',      # hypothesis 0 < length of I32.CS_bounds_safe
+    dict(name='SBI_NONEMPTY', kind='require', file=SEL, fn='select_by_indices', affects=['CS_EMPTY', 'CS_LO', 'CS_HI'],      # hypothesis 0 < length of I32.CS_bounds_safe
          require=[r'if\s+ty\s*!=\s*ARRAY_CONTAINER_TAG\s*\|\|\s*length\s*==\s*0\s*\{\s*return\s+Ok\(\(\)\)\s*;\s*\}']),
     dict(name='CS_LO', file=SEL, fn='convert_slice', pat=r'let\s+start\s*=\s*(?P<e>if\s+start\b[^;]*);', params=[('start', 'start')], mach='i64', safe=True, require=_RQ_SEL),
     dict(name='CS_HI', file=SEL, fn='convert_slice', pat=r'let\s+end\s*=\s*(?P<e>if\s+end\b[^;]*);',
          params=[('end', 'stop'), ('length', 'length')], mach='i64', safe=True, require=_RQ_SEL),
     # ---- G2: offsets of the read-only byte walkers (C05 C04 C14 C03 C08), usize arithmetic, type N ----------------------------
     # get_jentry_by_index
-    nrow('JBI_REJECT', FN, 'get_jentry_by_index', _IF_INDEX, [('index', 'index'), ('length', 'length')]),
-    nrow('JBI_JOFF', FN, 'get_jentry_by_index', letmut('jentry_offset'), _O),
-    nrow('JBI_VOFF', FN, 'get_jentry_by_index', letmut('val_offset'), _OL),
-    nrow('JBI_ADVANCE', FN, 'get_jentry_by_index', r'(?<!=\s)if\s+(?P<e>i\b[^{]*?)\s*\{', [('i', 'i'), ('index', 'index')]),
-    nrow('JBI_JSTEP', FN, 'get_jentry_by_index', incr('jentry_offset'), []),
+    nrow('JBI_REJECT', FN, 'get_jentry_by_index', r'(?<!=\s)if\s+(?P<e>{index}\b[^{]*?)\s*\{', [('index', 'index'), ('length', 'length')], names=_JBI),
+    nrow('JBI_JOFF', FN, 'get_jentry_by_index', letmut('{J}'), _O, names=_JBI),
+    nrow('JBI_VOFF', FN, 'get_jentry_by_index', letmut('{V}'), _OL, names=_JBI),
+    # the entries in front of the requested one are skipped: `for i in 0..length { .. if i < index { advance; continue } return .. }`,
+    # or the same loop written `for _ in 0..index { advance }` (its body runs exactly for the i with i < index)
+    nrow('JBI_ADVANCE', FN, 'get_jentry_by_index', r'(?<!=\s)if\s+(?P<e>i\b[^{]*?)\s*\{', [('i', 'i'), ('index', 'index')], names=_JBI,
+         alts=[dict(pat=r'for\s+_\s+in\s+0\s*\.\.\s*(?P<e>[^{]*?)\s*\{', synth='i < ({e})')]),
+    nrow('JBI_JSTEP', FN, 'get_jentry_by_index', incr('{J}'), [], names=_JBI),
     # get_jentry_by_name
-    nrow('JBN_JOFF', FN, 'get_jentry_by_name', letmut('jentry_offset'), _O),
-    nrow('JBN_VOFF', FN, 'get_jentry_by_name', letmut('val_offset'), _OL),
-    nrow('JBN_KOFF', FN, 'get_jentry_by_name', letmut('key_offset'), _OL),
-    nrow('JBN_JSTEP1', FN, 'get_jentry_by_name', incr('jentry_offset'), [], count=2, occ=0),
-    nrow('JBN_JSTEP2', FN, 'get_jentry_by_name', incr('jentry_offset'), [], count=2, occ=1),
+    nrow('JBN_JOFF', FN, 'get_jentry_by_name', letmut('{J}'), _O, names=_JBN),
+    nrow('JBN_VOFF', FN, 'get_jentry_by_name', letmut('{V}'), _OL, names=_JBN),
+    nrow('JBN_KOFF', FN, 'get_jentry_by_name', letmut('{K}'), _OL, names=_JBN),
+    nrow('JBN_JSTEP1', FN, 'get_jentry_by_name', incr('{J}'), [], count=2, occ=0, names=_JBN),
+    nrow('JBN_JSTEP2', FN, 'get_jentry_by_name', incr('{J}'), [], count=2, occ=1, names=_JBN),
     # object_keys
     nrow('OKS_JOFF', FN, 'object_keys', letmut('jentry_offset'), []),
-    nrow('OKS_KOFF', FN, 'object_keys', letmut('key_offset'), _L),
-    nrow('OKS_PREV_KOFF', FN, 'object_keys', letmut('prev_key_offset'), _L),
+    nrow('OKS_KOFF', FN, 'object_keys', letmut('key_offset'), _L, names=_HL),
+    nrow('OKS_PREV_KOFF', FN, 'object_keys', letmut('prev_key_offset'), _L, names=_HL),
     nrow('OKS_JSTEP', FN, 'object_keys', incr('jentry_offset'), []),
     # object_each
     nrow('OEA_OFF0', FN, 'object_each', letmut('offset'), []),
-    nrow('OEA_WORDS', FN, 'object_each', r'for\s+_\s+in\s+0\.\.(?P<e>[^{]*?)\s*\{', _L, count=3, occ=0),
+    nrow('OEA_WORDS', FN, 'object_each', r'for\s+_\s+in\s+0\.\.(?P<e>[^{]*?)\s*\{', _L, names=_HL, count=3, occ=0),
     nrow('OEA_STEP', FN, 'object_each', r'\boffset\s*\+=\s*(?P<e>[0-9][^;]*);', []),
     # array_values
     nrow('AVS_JOFF', FN, 'array_values', letmut('jentry_offset'), []),
-    nrow('AVS_VOFF', FN, 'array_values', letmut('val_offset'), _L),
+    nrow('AVS_VOFF', FN, 'array_values', letmut('val_offset'), _L, names=_HL),
     nrow('AVS_JSTEP', FN, 'array_values', incr('jentry_offset'), []),
     # compare_container -> compare_array / compare_object: the slices passed on skip the header
     nrow('CMP_ARR_LSKIP', FN, 'compare_container', r'compare_array\(\s*left_header\s*,\s*&left\[(?P<e>[^.\]]*)\.\.\]', []),
@@ -957,18 +1434,18 @@ ANCHORS = [
     nrow('CPR_MIX_RJOFF', FN, 'compare', r'let\s+right_encoded\s*=\s*read_u32\(\s*right\s*,\s*(?P<e>[^)]*)\)', [], count=2, occ=1),
     # compare_array
     nrow('CMA_JOFF', FN, 'compare_array', letmut('jentry_offset'), []),
-    nrow('CMA_LVOFF', FN, 'compare_array', letmut('left_val_offset'), [('left_length', 'left_length')]),
-    nrow('CMA_RVOFF', FN, 'compare_array', letmut('right_val_offset'), [('right_length', 'right_length')]),
-    nrow('CMA_LEN', FN, 'compare_array', r'let\s+length\s*=\s*(?P<e>if\b[^;]*);', _LR),
+    nrow('CMA_LVOFF', FN, 'compare_array', letmut('left_val_offset'), [('left_length', 'left_length')], names=_CMPN),
+    nrow('CMA_RVOFF', FN, 'compare_array', letmut('right_val_offset'), [('right_length', 'right_length')], names=_CMPN),
+    nrow('CMA_LEN', FN, 'compare_array', r'let\s+length\s*=\s*(?P<e>if\b[^;]*);', _LR, names=_CMPN),
     nrow('CMA_JSTEP', FN, 'compare_array', incr('jentry_offset'), []),
     # compare_object
     nrow('CMO_LJOFF', FN, 'compare_object', letmut('left_jentry_offset'), []),
     nrow('CMO_RJOFF', FN, 'compare_object', letmut('right_jentry_offset'), []),
-    nrow('CMO_LVOFF', FN, 'compare_object', letmut('left_val_offset'), [('left_length', 'left_length')]),
-    nrow('CMO_RVOFF', FN, 'compare_object', letmut('right_val_offset'), [('right_length', 'right_length')]),
-    nrow('CMO_LKOFF', FN, 'compare_object', letmut('left_key_offset'), [('left_length', 'left_length')]),
-    nrow('CMO_RKOFF', FN, 'compare_object', letmut('right_key_offset'), [('right_length', 'right_length')]),
-    nrow('CMO_LEN', FN, 'compare_object', r'let\s+length\s*=\s*(?P<e>if\b[^;]*);', _LR),
+    nrow('CMO_LVOFF', FN, 'compare_object', letmut('left_val_offset'), [('left_length', 'left_length')], names=_CMPN),
+    nrow('CMO_RVOFF', FN, 'compare_object', letmut('right_val_offset'), [('right_length', 'right_length')], names=_CMPN),
+    nrow('CMO_LKOFF', FN, 'compare_object', letmut('left_key_offset'), [('left_length', 'left_length')], names=_CMPN),
+    nrow('CMO_RKOFF', FN, 'compare_object', letmut('right_key_offset'), [('right_length', 'right_length')], names=_CMPN),
+    nrow('CMO_LEN', FN, 'compare_object', r'let\s+length\s*=\s*(?P<e>if\b[^;]*);', _LR, names=_CMPN),
     nrow('CMO_LJSTEP1', FN, 'compare_object', incr('left_jentry_offset'), [], count=2, occ=0),
     nrow('CMO_LJSTEP2', FN, 'compare_object', incr('left_jentry_offset'), [], count=2, occ=1),
     nrow('CMO_RJSTEP1', FN, 'compare_object', incr('right_jentry_offset'), [], count=2, occ=0),
@@ -977,74 +1454,267 @@ ANCHORS = [
     nrow('CVC_ARR_SKIP', FN, 'scalar_convert_to_comparable', r'array_convert_to_comparable\([^;]*&value\[(?P<e>[^.\]]*)\.\.\]', []),
     nrow('CVC_OBJ_SKIP', FN, 'scalar_convert_to_comparable', r'object_convert_to_comparable\([^;]*&value\[(?P<e>[^.\]]*)\.\.\]', []),
     nrow('CVA_JOFF', FN, 'array_convert_to_comparable', letmut('jentry_offset'), []),
-    nrow('CVA_VOFF', FN, 'array_convert_to_comparable', letmut('val_offset'), _L),
+    nrow('CVA_VOFF', FN, 'array_convert_to_comparable', letmut('val_offset'), _L, names=_CVN),
     nrow('CVA_JSTEP', FN, 'array_convert_to_comparable', incr('jentry_offset'), []),
     nrow('CVO_JOFF', FN, 'object_convert_to_comparable', letmut('jentry_offset'), []),
-    nrow('CVO_VOFF', FN, 'object_convert_to_comparable', letmut('val_offset'), _L),
-    nrow('CVO_KOFF', FN, 'object_convert_to_comparable', letmut('key_offset'), _L),
+    nrow('CVO_VOFF', FN, 'object_convert_to_comparable', letmut('val_offset'), _L, names=_CVN),
+    nrow('CVO_KOFF', FN, 'object_convert_to_comparable', letmut('key_offset'), _L, names=_CVN),
     nrow('CVO_JSTEP1', FN, 'object_convert_to_comparable', incr('jentry_offset'), [], count=2, occ=0),
     nrow('CVO_JSTEP2', FN, 'object_convert_to_comparable', incr('jentry_offset'), [], count=2, occ=1),
     # container_to_string / scalar_to_string (occurrences: scalar, array, object arm)
-    nrow('CTS_SC_JOFF', FN, 'container_to_string', letmut('jentry_offset'), _O, count=3, occ=0),
-    nrow('CTS_SC_VOFF', FN, 'container_to_string', letmut('value_offset'), _O, count=3, occ=0),
-    nrow('CTS_ARR_JOFF', FN, 'container_to_string', letmut('jentry_offset'), _O, count=3, occ=1),
-    nrow('CTS_ARR_VOFF', FN, 'container_to_string', letmut('value_offset'), _OL, count=3, occ=1),
-    nrow('CTS_OBJ_JOFF', FN, 'container_to_string', letmut('jentry_offset'), _O, count=3, occ=2),
-    nrow('CTS_OBJ_KOFF', FN, 'container_to_string', letmut('key_offset'), _OL),
+    nrow('CTS_SC_JOFF', FN, 'container_to_string', letmut('jentry_offset'), _O, names=_CTS, count=3, occ=0),
+    nrow('CTS_SC_VOFF', FN, 'container_to_string', letmut('value_offset'), _O, names=_CTS, count=3, occ=0),
+    nrow('CTS_ARR_JOFF', FN, 'container_to_string', letmut('jentry_offset'), _O, names=_CTS, count=3, occ=1),
+    nrow('CTS_ARR_VOFF', FN, 'container_to_string', letmut('value_offset'), _OL, names=_CTS, count=3, occ=1),
+    nrow('CTS_OBJ_JOFF', FN, 'container_to_string', letmut('jentry_offset'), _O, names=_CTS, count=3, occ=2),
+    nrow('CTS_OBJ_KOFF', FN, 'container_to_string', letmut('key_offset'), _OL, names=_CTS),
     nrow('CTS_OBJ_VOFF', FN, 'container_to_string', letmut('value_offset'), [('key_offset', 'key_offset')], count=3, occ=2),
     nrow('CTS_OBJ_JSTEP', FN, 'container_to_string', incr('jentry_offset'), []),
-    nrow('STS_JSTEP', FN, 'scalar_to_string', r'\*jentry_offset\s*\+=\s*(?P<e>[^;]*);', []),
+    nrow('STS_JSTEP', FN, 'scalar_to_string', incr('{J}'), [], names={'J': P(1, '&mutusize', 'jentry_offset')}),
     # selector.rs
-    nrow('SOV_OFF', SEL, 'select_object_values', letmut('offset'), _RL),
-    nrow('SAV_OFF', SEL, 'select_array_values', letmut('offset'), _RL),
-    nrow('SBN_OFF', SEL, 'select_by_name', letmut('offset'), _RL),
-    nrow('SBI_OFF', SEL, 'select_by_indices', letmut('offset'), _RL),
-    nrow('BSA_RESERVE', SEL, 'build_scalar_array', r'data\.resize\(\s*(?P<e>[^,]*),\s*0\s*\)\s*;', [('jentry_offset', 'jentry_offset'), ('len', 'len')]),
-    nrow('BSA_JSTEP', SEL, 'build_scalar_array', incr('jentry_offset'), []),
+    nrow('SOV_OFF', SEL, 'select_object_values', letmut('offset'), _RL, names=_SELN),
+    nrow('SAV_OFF', SEL, 'select_array_values', letmut('offset'), _RL, names=_SELN),
+    nrow('SBN_OFF', SEL, 'select_by_name', letmut('offset'), _RL, names=_SELN),
+    nrow('SBI_OFF', SEL, 'select_by_indices', letmut('offset'), _RL, names=_SELN),
+    nrow('BSA_RESERVE', SEL, 'build_scalar_array', r'{data}\.resize\(\s*(?P<e>[^,]*),\s*0\s*\)\s*;', [('J', 'jentry_offset'), ('len', 'len')], names=_BSA),
+    nrow('BSA_JSTEP', SEL, 'build_scalar_array', incr('{J}'), [], names=_BSA),
     # ---- G3: width selection of Number::compact_encode (C01 C18) ----------------------------------------------------------------
     dict(name='CE_INT_ZERO', file=NUM, fn='compact_encode', pat=_CE_EQ, count=2, occ=0, params=_V, ty='Z', mach='i64'),
-    dict(name='CE_INT_FITS1', file=NUM, fn='compact_encode', pat=_CE_GE, count=3, occ=0, params=_V, ty='Z', mach='i64'),
-    dict(name='CE_INT_FITS2', file=NUM, fn='compact_encode', pat=_CE_GE, count=3, occ=1, params=_V, ty='Z', mach='i64'),
-    dict(name='CE_INT_FITS3', file=NUM, fn='compact_encode', pat=_CE_GE, count=3, occ=2, params=_V, ty='Z', mach='i64'),
+    dict(name='CE_INT_FITS1', file=NUM, fn='compact_encode', pat=_CE_GE, count=3, occ=0, params=_V, ty='Z', mach='i64', alts=[_CE_TRY_I]),
+    dict(name='CE_INT_FITS2', file=NUM, fn='compact_encode', pat=_CE_GE, count=3, occ=1, params=_V, ty='Z', mach='i64', alts=[_CE_TRY_I]),
+    dict(name='CE_INT_FITS3', file=NUM, fn='compact_encode', pat=_CE_GE, count=3, occ=2, params=_V, ty='Z', mach='i64', alts=[_CE_TRY_I]),
     dict(name='CE_UINT_ZERO', file=NUM, fn='compact_encode', pat=_CE_EQ, count=2, occ=1, params=_V, ty='N', mach='u64'),
-    dict(name='CE_UINT_FITS1', file=NUM, fn='compact_encode', pat=_CE_LE, count=3, occ=0, params=_V, ty='N', mach='u64'),
-    dict(name='CE_UINT_FITS2', file=NUM, fn='compact_encode', pat=_CE_LE, count=3, occ=1, params=_V, ty='N', mach='u64'),
-    dict(name='CE_UINT_FITS3', file=NUM, fn='compact_encode', pat=_CE_LE, count=3, occ=2, params=_V, ty='N', mach='u64'),
+    dict(name='CE_UINT_FITS1', file=NUM, fn='compact_encode', pat=_CE_LE, count=3, occ=0, params=_V, ty='N', mach='u64', alts=[_CE_TRY_U]),
+    dict(name='CE_UINT_FITS2', file=NUM, fn='compact_encode', pat=_CE_LE, count=3, occ=1, params=_V, ty='N', mach='u64', alts=[_CE_TRY_U]),
+    dict(name='CE_UINT_FITS3', file=NUM, fn='compact_encode', pat=_CE_LE, count=3, occ=2, params=_V, ty='N', mach='u64', alts=[_CE_TRY_U]),
     # the widths written: `(*v as iN).to_be_bytes()` in the three narrow branches, the variant's own type in the last one
-    dict(name='CE_INT_W1', kind='width', file=NUM, fn='compact_encode', pat=_CE_W, count=6, occ=0),
-    dict(name='CE_INT_W2', kind='width', file=NUM, fn='compact_encode', pat=_CE_W, count=6, occ=1),
-    dict(name='CE_INT_W3', kind='width', file=NUM, fn='compact_encode', pat=_CE_W, count=6, occ=2),
+    dict(name='CE_INT_W1', kind='width', file=NUM, fn='compact_encode', pat=_CE_W, count=6, occ=0, alts=[_CE_TRY_W]),
+    dict(name='CE_INT_W2', kind='width', file=NUM, fn='compact_encode', pat=_CE_W, count=6, occ=1, alts=[_CE_TRY_W]),
+    dict(name='CE_INT_W3', kind='width', file=NUM, fn='compact_encode', pat=_CE_W, count=6, occ=2, alts=[_CE_TRY_W]),
     dict(name='CE_INT_W4', kind='width', file=NUM, fn=None, pat=r'enum\s+Number\s*\{\s*Int64\((?P<e>\w+)\)\s*,'),
-    dict(name='CE_UINT_W1', kind='width', file=NUM, fn='compact_encode', pat=_CE_W, count=6, occ=3),
-    dict(name='CE_UINT_W2', kind='width', file=NUM, fn='compact_encode', pat=_CE_W, count=6, occ=4),
-    dict(name='CE_UINT_W3', kind='width', file=NUM, fn='compact_encode', pat=_CE_W, count=6, occ=5),
+    dict(name='CE_UINT_W1', kind='width', file=NUM, fn='compact_encode', pat=_CE_W, count=6, occ=3, alts=[_CE_TRY_W]),
+    dict(name='CE_UINT_W2', kind='width', file=NUM, fn='compact_encode', pat=_CE_W, count=6, occ=4, alts=[_CE_TRY_W]),
+    dict(name='CE_UINT_W3', kind='width', file=NUM, fn='compact_encode', pat=_CE_W, count=6, occ=5, alts=[_CE_TRY_W]),
     dict(name='CE_UINT_W4', kind='width', file=NUM, fn=None, pat=r'enum\s+Number\s*\{[^}]*?\bUInt64\((?P<e>\w+)\)\s*,'),
-    dict(name='CE_WIDE_BRANCHES', kind='require', file=NUM, fn='compact_encode',      # the last branch writes the variant's own type
+    dict(name='CE_WIDE_BRANCHES', kind='require', file=NUM, fn='compact_encode', affects=['CE_INT_W4', 'CE_UINT_W4'],      # the last branch writes the variant's own type
          require=[r'\}\s*else\s*\{\s*writer\.write_all\(&v\.to_be_bytes\(\)\)\?;\s*Ok\(9\)\s*\}\s*\}\s*Self::UInt64',
                   r'\}\s*else\s*\{\s*writer\.write_all\(&v\.to_be_bytes\(\)\)\?;\s*Ok\(9\)\s*\}\s*\}\s*Self::Float64']),
 ]
 
 
-def anchors(repo):
-    L = []
-    for row in ANCHORS:
-        L.extend(anchored(repo, row))
-    return L
+IT = 'src/iterator.rs'
+BL = 'src/builder.rs'
+_ITN = {'header': P(1, 'u32', 'header'), 'length': _HDRLEN}
+_BLN = [('self.entries.len()', 'n'), ('entries.len()', 'n')]
+_IMPL_AB = r"impl<'a>\s+ArrayBuilder<'a>\s*\{"
+_IMPL_OB = r"impl<'a>\s+ObjectBuilder<'a>\s*\{"
+
+
+def fieldpat(name):
+    """the value given to a field in the struct literal a constructor fn returns"""
+    return r'\b' + name + r'\s*:\s*(?P<e>[^,}]+)[,}]'
+
+
+def prow(name, file, fn, pat, params, binder, **kw):
+    return nrow(name, file, fn, pat, params, fmt='plain', binder=binder, **kw)
+
+
+# iterator.rs / builder.rs: initial offsets of the three iterators (as functions of the entry count), initial lengths and reserved
+# sizes of the two builders (as functions of the number of entries), entry-word strides.  Same row format as ANCHORS; emitted
+# without `%N` and with a fixed parameter list (coq/Iter.v, coq/Builder.v, coq/OffsetTies.v use them)
+PLAIN_ROWS = [
+    prow('ITER_ARR_JOFF', IT, 'iterate_array', fieldpat('jentry_offset'), _L, ['length'], names=_ITN),
+    prow('ITER_ARR_VOFF', IT, 'iterate_array', fieldpat('val_offset'), _L, ['length'], names=_ITN),
+    prow('ITER_KEYS_JOFF', IT, 'iteate_object_keys', fieldpat('jentry_offset'), _L, ['length'], names=_ITN),
+    prow('ITER_KEYS_KOFF', IT, 'iteate_object_keys', fieldpat('key_offset'), _L, ['length'], names=_ITN),
+    prow('ITER_ENT_JOFF', IT, 'iterate_object_entries', fieldpat('jentry_offset'), _L, ['length'], names=_ITN),
+    prow('ITER_ENT_KOFF', IT, 'iterate_object_entries', fieldpat('key_offset'), _L, ['length'], names=_ITN),
+    prow('ITER_ENT_VOFF', IT, 'iterate_object_entries', fieldpat('val_offset'), _L, ['length'], names=_ITN),
+    prow('BLD_ARR_LEN0', BL, 'build_into', letmut('array_len'), _BLN, ['n'], impl=_IMPL_AB),
+    prow('BLD_ARR_RESERVE', BL, 'build_into', r'reserve_jentries\(\s*buf\s*,\s*(?P<e>[^;]+?)\)\s*;', _BLN, ['n'], impl=_IMPL_AB),
+    prow('BLD_OBJ_LEN0', BL, 'build_into', letmut('object_len'), _BLN, ['n'], impl=_IMPL_OB),
+    prow('BLD_OBJ_RESERVE', BL, 'build_into', r'reserve_jentries\(\s*buf\s*,\s*(?P<e>[^;]+?)\)\s*;', _BLN, ['n'], impl=_IMPL_OB),
+    prow('ITER_ARR_JSTEP', IT, 'next', incr(r'self\.jentry_offset'), [], [], impl=r"impl<'a>\s+Iterator\s+for\s+ArrayIterator<'a>\s*\{"),
+    prow('ITER_KEYS_JSTEP', IT, 'next', incr(r'self\.jentry_offset'), [], [], impl=r"impl<'a>\s+Iterator\s+for\s+ObjectKeyIterator<'a>\s*\{"),
+    prow('ITER_ENT_JSTEP', IT, 'next', incr(r'self\.jentry_offset'), [], [], impl=r"impl<'a>\s+Iterator\s+for\s+ObjectEntryIterator<'a>\s*\{"),
+    prow('ITER_FILL_JSTEP', IT, 'fill_keys', incr(r'self\.jentry_offset'), [], []),
+    prow('BLD_JSTEP', BL, 'replace_jentry', incr('{J}'), [], [], names={'J': P(2, '&mutusize', 'jentry_index')}),
+]
 
 
 def coq_list(xs):
     return '[' + '; '.join(str(x) for x in xs) + ']'
 
 
-def generate(repo):
-    C = consts(repo)
-    hexv = hex_table(repo)
-    esc, generic, _ = escape_table(repo)
-    lvl, lvl_default = level_table(repo, C)
-    jsonb_set = is_jsonb_set(repo, C)
-    delims = raw_string_delims(repo)
-    offs, offc = offsets(repo)
-    anch = anchors(repo)
+# ---------------------------------------------------------------- baseline: the committed Constants.v, normal forms, stale names
+# NORMAL FORM.  Every generated expression is compared SEMANTICALLY (tools/normform.py: polynomial normal form of integer
+# expressions, canonical form of conditions, set of range obligations for NAME_SAFE) with the definition of the same name in
+# the baseline = coq/gen/Constants.v as committed (the text the proofs were last checked against).  Equal normal form, same
+# parameters and type: the BASELINE TEXT is emitted verbatim (comment included), so a mere re-ordering / hoisting / renaming
+# in the source changes nothing in coq/ and no proof is re-run.  Otherwise the new text is emitted and the proofs decide.
+# SCOPED ALARMS.  A row (or table) that cannot be translated does not stop the run when a baseline is available: the baseline
+# definition is emitted for it (the Coq build, the extracted model, the correspondence check keep working against the last
+# known-good model), and the name and the error are recorded as STALE (coq/gen/stale.json, line `stale: NAME ...` on stdout).
+# bin/check reports the tie broken only for properties whose Props file depends on a stale name.
+class Baseline:
+    def __init__(self, text):
+        self.text = text
+        self.lines = text.split('\n')
+        self.idx = {}
+        for i, l in enumerate(self.lines):
+            m = re.match(r'Definition (\w+)\b', l)
+            if m:
+                self.idx[m.group(1)] = i
+
+    def has(self, name):
+        return name in self.idx
+
+    def defline(self, name):
+        return self.lines[self.idx[name]] if name in self.idx else None
+
+    def comment(self, name):
+        """the comment line of an anchored definition (the line above it)"""
+        i = self.idx.get(name)
+        if i and self.lines[i - 1].startswith('(*'):
+            return self.lines[i - 1]
+        return None
+
+    def require_comment(self, name):
+        for l in self.lines:
+            if l.startswith('(* %s: ' % name):
+                return l
+        return None
+
+    def const_names(self):
+        """names of the first section (constants of src/constants.rs)"""
+        out = []
+        for l in self.lines[4:]:
+            if l.startswith('(*'):
+                break
+            m = re.match(r'Definition (\w+) : N := ([0-9]+)\.$', l)
+            if m:
+                out.append(m.group(1))
+        return out
+
+
+def same_meaning(res, base, which):
+    """does definition number `which` (0 = the expression, 1 = NAME_SAFE) of a translated row mean what the baseline line means?"""
+    import normform
+    line = base.defline(res['name'] + ('_SAFE' if which else ''))
+    if line is None:
+        return False
+    if line == res['defs'][which]:
+        return True
+    d = normform.parse_definition(line)
+    if d is None or d['binder'] != res['binder'] or (d['binder'] and d['bty'] != res['ty']):
+        return False
+    try:
+        if which == 1:
+            bobs = normform.parse_safe(d['body'])
+            return d['rty'] == 'Prop' and bobs is not None and normform.nf_safe(bobs, res['ty']) == normform.nf_safe(res['obs'], res['ty'])
+        if d['rty'] != res['rty']:
+            return False
+        bast = normform.parse_gallina(d['body'])
+        return bast is not None and normform.nf(bast, res['ekind'], res['ty']) == normform.nf(res['ast'], res['ekind'], res['ty'])
+    except normform.NFError:
+        return False
+
+
+def emit_row(res, base, rep):
+    """lines of one translated row, the baseline text where it means the same"""
+    name = res['name']
+    new = ([res['comment']] if res['comment'] else []) + res['defs']
+    if base is None:
+        return new
+    if res['kind'] == 'require':
+        bc = base.require_comment(name)
+        return [bc] if bc else new
+    if res['kind'] == 'width':
+        if base.defline(name) == res['defs'][0]:
+            return ([base.comment(name)] if base.comment(name) else []) + res['defs']
+        rep['changed'].append(name)
+        return new
+    same = [same_meaning(res, base, k) for k in range(len(res['defs']))]
+    if all(same):
+        old = [base.defline(name)] + ([base.defline(name + '_SAFE')] if len(res['defs']) > 1 else [])
+        bc = base.comment(name) if res['comment'] else None
+        block = ([bc] if bc else ([res['comment']] if res['comment'] else [])) + old
+        if block != new:
+            rep['equivalent'][name] = res.get('source', '')
+        return block
+    rep['changed'].append(name)
+    out = [res['comment']] if res['comment'] else []
+    for k, d in enumerate(res['defs']):
+        out.append(base.defline(name + ('_SAFE' if k else '')) if same[k] else d)
+    return out
+
+
+def stale_row(row, base, rep, err):
+    """a row that cannot be translated: the baseline block, the name recorded as stale"""
+    name = row['name']
+    if base is None:
+        raise TranslateError(err)
+    if row.get('kind') == 'require':
+        bc = base.require_comment(name)
+        if bc is None:
+            raise TranslateError(err)
+        rep['stale'][name] = err
+        rep['affects'][name] = list(row.get('affects', []))
+        return [bc]
+    if not base.has(name) or (row.get('safe') and not base.has(name + '_SAFE')):
+        raise TranslateError(err + ' (and the baseline has no definition %s to fall back to)' % name)
+    rep['stale'][name] = err
+    rep['affects'][name] = list(row.get('affects', []))
+    out = []
+    if row.get('fmt') != 'plain' and base.comment(name):
+        out.append(base.comment(name))
+    out.append(base.defline(name))
+    if row.get('safe'):
+        out.append(base.defline(name + '_SAFE'))
+    return out
+
+
+def rows_out(repo, rows, base, rep):
+    L = []
+    for row in rows:
+        try:
+            L.extend(emit_row(anchored(repo, row), base, rep))
+        except TranslateError as e:
+            L.extend(stale_row(row, base, rep, str(e)))
+    return L
+
+
+def table(names, fn, base, rep):
+    """a declarative table: fn() -> lines; when it cannot be read, the baseline definitions of `names`, recorded as stale"""
+    try:
+        return fn()
+    except (TranslateError, OSError, ValueError, KeyError, IndexError) as e:
+        if base is None or not all(base.has(n) for n in names):
+            raise TranslateError(str(e))
+        for n in names:
+            rep['stale'][n] = str(e)
+        return [base.defline(n) for n in names]
+
+
+def new_report():
+    return {'stale': {}, 'affects': {}, 'equivalent': {}, 'changed': []}
+
+
+def generate(repo, base=None, rep=None):
+    """the text of Constants.v.  base = Baseline or None (None: strict, every failure is a TranslateError);
+    rep (see new_report) receives the stale / equivalent / changed names"""
+    rep = rep if rep is not None else new_report()
+    _SCOPE_CACHE.clear()
+    try:
+        C = consts(repo, strict=base is None)
+    except (OSError, ValueError) as e:
+        raise TranslateError(str(e))
+    if base is not None:
+        for k in base.const_names():
+            if k not in C:
+                v = int(re.match(r'Definition \w+ : N := ([0-9]+)\.$', base.defline(k)).group(1))
+                C[k] = v
+                rep['stale'][k] = 'constant %s not found in src/constants.rs' % k
     L = []
     L.append('(* GENERATED by tools/translate_consts.py from the working tree of /repo. Do not edit. *)')
     L.append('From Coq Require Import NArith ZArith Bool List.')
@@ -1055,29 +1725,35 @@ def generate(repo):
         L.append('Definition %s : N := %d.' % (k, C[k]))
     L.append('')
     L.append('(* util.rs HEX table: byte -> hex digit value (255 = not a hex digit) *)')
-    L.append('Definition HEX_TABLE : list N := %s.' % coq_list(hexv))
+    L.extend(table(['HEX_TABLE'], lambda: ['Definition HEX_TABLE : list N := %s.' % coq_list(hex_table(repo))], base, rep))
     L.append('')
     L.append('(* functions.rs escape_scalar_string: byte -> replacement text *)')
-    L.append('Definition ESCAPE_TABLE : list (N * list N) := [%s].' %
-             '; '.join('(%d, %s)' % (b, coq_list(esc[b])) for b in sorted(esc)))
-    L.append('Definition ESCAPE_GENERIC_CONTROL : bool := %s.' % ('true' if generic else 'false'))
+
+    def esc_lines():
+        esc, generic, _ = escape_table(repo)
+        return ['Definition ESCAPE_TABLE : list (N * list N) := [%s].' % '; '.join('(%d, %s)' % (b, coq_list(esc[b])) for b in sorted(esc)),
+                'Definition ESCAPE_GENERIC_CONTROL : bool := %s.' % ('true' if generic else 'false')]
+    L.extend(table(['ESCAPE_TABLE', 'ESCAPE_GENERIC_CONTROL'], esc_lines, base, rep))
     L.append('')
     L.append('(* functions.rs jentry_compare_level: entry tag -> level *)')
-    L.append('Definition LEVEL_TABLE : list (N * N) := [%s].' %
-             '; '.join('(%s, %s)' % (t, l) for t, l in sorted(lvl.items())))
-    L.append('Definition LEVEL_DEFAULT : N := %s.' % lvl_default)
+
+    def lvl_lines():
+        lvl, lvl_default = level_table(repo, C)
+        for t, l in list(lvl.items()) + [(lvl_default, lvl_default)]:
+            if t not in C or l not in C:
+                raise TranslateError('jentry_compare_level uses the unknown constant %s / %s' % (t, l))
+        return ['Definition LEVEL_TABLE : list (N * N) := [%s].' % '; '.join('(%s, %s)' % (t, l) for t, l in sorted(lvl.items())),
+                'Definition LEVEL_DEFAULT : N := %s.' % lvl_default]
+    L.extend(table(['LEVEL_TABLE', 'LEVEL_DEFAULT'], lvl_lines, base, rep))
     L.append('')
     L.append('(* functions.rs is_jsonb: first-byte set *)')
-    L.append('Definition IS_JSONB_BYTES : list N := %s.' % coq_list(jsonb_set))
+    L.extend(table(['IS_JSONB_BYTES'], lambda: ['Definition IS_JSONB_BYTES : list N := %s.' % coq_list(is_jsonb_set(repo, C))], base, rep))
     L.append('')
     L.append('(* jsonpath/parser.rs raw_string: delimiter byte set *)')
-    L.append('Definition RAW_STRING_DELIMS : list N := %s.' % coq_list(delims))
+    L.extend(table(['RAW_STRING_DELIMS'], lambda: ['Definition RAW_STRING_DELIMS : list N := %s.' % coq_list(raw_string_delims(repo))], base, rep))
     L.append('')
     L.append('(* iterator.rs / builder.rs: initial offsets, entry-word strides, initial lengths and reserved sizes, as written *)')
-    for name, var, e in offs:
-        L.append('Definition %s (%s : N) : N := %s.' % (name, var, e))
-    for name, v in offc:
-        L.append('Definition %s : N := %d.' % (name, v))
+    L.extend(rows_out(repo, PLAIN_ROWS, base, rep))
     L.append('')
     L.append('(* value ranges of the machine integer types *)')
     for T in ('i8', 'i16', 'i32', 'i64', 'u8', 'u16', 'u32', 'u64', 'usize'):
@@ -1085,7 +1761,7 @@ def generate(repo):
         lo, hi = (-(1 << (bits - 1)), (1 << (bits - 1)) - 1) if T[0] == 'i' else (0, (1 << bits) - 1)
         L.append('Definition IN_%s (z : Z) : Prop := (%s <= z <= %d)%%Z.' % (T, lo, hi))
     L.append('(* anchored expressions (table ANCHORS of the translator): integer expressions and conditions, as written in the source *)')
-    L.extend(anch)
+    L.extend(rows_out(repo, ANCHORS, base, rep))
     L.append('')
     return '\n'.join(L)
 
@@ -1186,9 +1862,13 @@ def mutate(src, fn, old, new, occ):
 
 
 def selftest(repo, verbose=True):
-    """returns the number of unnoticed mutations (0 = pass)"""
+    """returns the number of unnoticed mutations (0 = pass).  The unmutated tree is translated strictly (no baseline: every
+    failure is an error) and its output is the baseline of the mutated runs, exactly the situation of bin/check after a
+    source change: a mutation is noticed when a definition changes (the proofs are re-run against it) or a name goes stale
+    (the properties that depend on it report the tie broken).  Baseline text re-emitted for an equal normal form = unnoticed."""
     import tempfile, shutil
     base = generate(repo)
+    B = Baseline(base)
     unnoticed = 0
     skipped = 0
     for k, (rel, fn, old, new, occ) in enumerate(MUTATIONS):
@@ -1206,11 +1886,15 @@ def selftest(repo, verbose=True):
                 continue
             _SRC_CACHE.clear()
             try:
-                out = generate(tmp)
-                verdict = 'definitions differ' if out != base else 'UNNOTICED'
-                if out != base:
+                rep = new_report()
+                out = generate(tmp, B, rep)
+                if rep['stale']:
+                    verdict = 'stale (%s): %s' % (', '.join(sorted(rep['stale'])), str(sorted(rep['stale'].items())[0][1])[:90])
+                elif out != base:
                     changed = [l.split()[1] for l in out.split('\n') if l.startswith('Definition') and l not in base]
-                    verdict += ' (%s)' % ', '.join(changed) if changed else ' (comment only)'
+                    verdict = 'definitions differ' + (' (%s)' % ', '.join(changed) if changed else ' (comment only)')
+                else:
+                    verdict = 'UNNOTICED'
             except TranslateError as e:
                 verdict = 'tie broken (exit 2): %s' % str(e)[:110]
             if verdict == 'UNNOTICED':
@@ -1224,10 +1908,47 @@ def selftest(repo, verbose=True):
     return unnoticed
 
 
+VERIF = os.path.dirname(os.path.dirname(os.path.abspath(__file__)))
+
+
+def find_baseline(explicit, out):
+    """(text, where from) of the baseline, or (None, reason).  Order: --baseline FILE; `git show HEAD:coq/gen/Constants.v` of
+    the verif repository; work/constants_baseline.v, a snapshot taken on first use of the existing output file (for copies of the
+    framework without .git, e.g. the isolated copies of tools/seedrun.py)."""
+    import subprocess
+    if explicit:
+        if explicit == 'none':
+            return None, 'disabled'
+        return open(explicit).read(), explicit
+    try:
+        p = subprocess.run(['git', '-C', VERIF, 'show', 'HEAD:coq/gen/Constants.v'], stdout=subprocess.PIPE, stderr=subprocess.DEVNULL, timeout=30)
+        if p.returncode == 0 and p.stdout:
+            top = subprocess.run(['git', '-C', VERIF, 'rev-parse', '--show-toplevel'], stdout=subprocess.PIPE, stderr=subprocess.DEVNULL, timeout=30)
+            if top.returncode == 0 and os.path.realpath(top.stdout.decode().strip()) == os.path.realpath(VERIF):
+                return p.stdout.decode(), 'git HEAD'
+    except (OSError, subprocess.SubprocessError):
+        pass
+    snap = os.path.join(VERIF, 'work', 'constants_baseline.v')
+    if os.path.exists(snap):
+        return open(snap).read(), snap
+    cur = out or os.path.join(VERIF, 'coq', 'gen', 'Constants.v')
+    if os.path.exists(cur):
+        text = open(cur).read()
+        try:
+            os.makedirs(os.path.dirname(snap), exist_ok=True)
+            open(snap, 'w').write(text)
+        except OSError:
+            pass
+        return text, cur + ' (snapshot taken)'
+    return None, 'no baseline found'
+
+
 def main():
     ap = argparse.ArgumentParser()
     ap.add_argument('--repo', default='/repo')
     ap.add_argument('--out')
+    ap.add_argument('--baseline', help="file to compare with / fall back to (default: the committed coq/gen/Constants.v); 'none' = strict mode, exit 2 on the first failure")
+    ap.add_argument('--report', help='where to write the stale / equivalent / changed names (default: stale.json next to --out)')
     ap.add_argument('--selftest', action='store_true', help='apply MUTATIONS to a copy of the sources; every one must change the output or break the tie')
     a = ap.parse_args()
     if a.selftest:
@@ -1236,11 +1957,23 @@ def main():
         except (TranslateError, OSError, ValueError, KeyError) as e:
             sys.stderr.write('translate_consts: %s\n' % e)
             sys.exit(2)
+    rep = new_report()
     try:
-        text = generate(a.repo)
+        btext, bfrom = find_baseline(a.baseline, a.out)
+        text = generate(a.repo, Baseline(btext) if btext else None, rep)
     except (TranslateError, OSError, ValueError, KeyError) as e:
         sys.stderr.write('translate_consts: %s\n' % e)
         sys.exit(2)
+    rep['baseline'] = bfrom
+    report = a.report or (os.path.join(os.path.dirname(a.out), 'stale.json') if a.out else None)
+    if report:
+        import json
+        if rep['stale'] or rep['equivalent'] or rep['changed']:
+            with open(report, 'w') as f:
+                json.dump(rep, f, indent=1, sort_keys=True)
+                f.write('\n')
+        elif os.path.exists(report):
+            os.unlink(report)
     if a.out:
         old = None
         if os.path.exists(a.out):
@@ -1253,6 +1986,15 @@ def main():
             print('unchanged')
     else:
         sys.stdout.write(text)
+    msg = sys.stdout if a.out else sys.stderr
+    if rep['equivalent']:
+        msg.write('equivalent (source text differs, same normal form, baseline text kept): %s\n' % ' '.join(sorted(rep['equivalent'])))
+    if rep['changed']:
+        msg.write('changed (new definition emitted, the proofs decide): %s\n' % ' '.join(rep['changed']))
+    if rep['stale']:
+        for n in sorted(rep['stale']):
+            msg.write('cannot translate %s (baseline definition kept): %s\n' % (n, rep['stale'][n]))
+        msg.write('stale: %s\n' % ' '.join(sorted(rep['stale'])))
 
 
 if __name__ == '__main__':
